@@ -47,98 +47,7 @@ using vf::fmt;
 static vf::Ctx* C;
 static int REPS = 1;
 
-struct Outcome {
-  bool threw_ef = false;     // expectation_failed caught
-  bool threw_other = false;  // anything else escaped
-  string other;
-  string file, msg, what;
-  uint64_t line = 0;
-  uint64_t site_line = 0;
-};
-
-static void capture(Outcome& o, const phosg::expectation_failed& e, bool read_msg) {
-  o.threw_ef = true;
-  o.file = e.file ? e.file : "(null)";
-  o.line = e.line;
-  o.what = e.what();
-  if (read_msg) o.msg = e.msg ? e.msg : "(null)";
-}
-
-#define CATCH_INTO(o, read_msg)                                   \
-  catch (const phosg::expectation_failed& e) { capture(o, e, read_msg); } \
-  catch (const std::exception& e) { o.threw_other = true; o.other = string("std::exception: ") + e.what(); } \
-  catch (...) { o.threw_other = true; o.other = "non-std::exception object"; }
-
-// ---- call contexts ---------------------------------------------------------------------------------------
-enum Context { CX_DIRECT, CX_HANDLER, CX_DTOR_NORMAL, CX_UNWINDING, CX_THREAD, NCTX };
-static const char* CTX_NAME[NCTX] = {"direct", "catch-handler", "dtor-normal-exit", "dtor-unwinding", "thread-during-unwinding"};
-// rotation per repetition: the thread context (expensive) once in eight
-static const Context CTX_SCHED[8] = {CX_DIRECT, CX_UNWINDING, CX_HANDLER, CX_DTOR_NORMAL, CX_UNWINDING, CX_DIRECT, CX_THREAD, CX_HANDLER};
-
-struct UnrelatedObject {  // an unrelated exception that is not a std::exception
-  int code;
-};
-
-// Runs f() from its destructor.  f catches everything itself (CATCH_INTO), so nothing ever escapes the destructor.
-template <typename F>
-struct RunInDtor {
-  F& f;
-  Outcome& out;
-  bool on_thread;
-  ~RunInDtor() {
-    if (on_thread) {
-      std::thread t([this]() {
-        vf::poison_errno();
-        out = f();
-      });
-      t.join();
-    } else {
-      vf::poison_errno();
-      out = f();
-    }
-  }
-};
-
-static uint64_t ctx_counter = 0;
-
-template <typename F>
-static Outcome in_context(Context cx, F f) {
-  Outcome out;
-  bool std_flavour = (ctx_counter++ & 1) != 0;  // alternate the type of the unrelated exception
-  switch (cx) {
-    case CX_DIRECT:
-      vf::poison_errno();
-      return f();
-    case CX_HANDLER:
-      try {
-        if (std_flavour) throw std::runtime_error("unrelated exception");
-        throw UnrelatedObject{7};
-      } catch (const std::runtime_error&) {
-        vf::poison_errno();
-        out = f();
-      } catch (const UnrelatedObject&) {
-        vf::poison_errno();
-        out = f();
-      }
-      return out;
-    case CX_DTOR_NORMAL: {
-      RunInDtor<F> g{f, out, false};
-    }
-      return out;
-    case CX_UNWINDING:
-    case CX_THREAD:
-      try {
-        RunInDtor<F> g{f, out, cx == CX_THREAD};
-        if (std_flavour) throw std::logic_error("unrelated exception");
-        throw UnrelatedObject{9};
-      } catch (const std::logic_error&) {
-      } catch (const UnrelatedObject&) {
-      }
-      return out;
-    default:
-      return out;
-  }
-}
+#include "c19_common.hh"  // Outcome, CATCH_INTO, call contexts (in_context)
 
 // One function per relation; the whole body is on the line of the DEF_REL use, so __LINE__ inside the phosg macro
 // and in `site_line = __LINE__` agree, and every relation has its own line.
@@ -264,10 +173,16 @@ static void judge(Context cx, const string& opname, const string& tname, bool sh
     if (p1 == string::npos || p2 == string::npos)
       C->violation(vkey(cx, opname, "", "site:message"), fmt("failure message \"%s\" does not name the call site's operand expressions", o.msg.c_str()), kase);
   }
-  // what() is what a generic handler prints.  The statement only requires the exception to carry file, line and
-  // message (the fields judged above), so a what() that lacks one of them is counted as an observation, not a verdict.
-  if (o.what.find(o.msg) == string::npos || o.what.find(fmt("%" PRIu64, o.site_line)) == string::npos || o.what.find(__FILE__) == string::npos)
-    C->count("observation_what_lacks_call_site");
+  // what() is the only carrier a `catch (const std::exception&)` / std::terminate sees — which is how every test in the
+  // repository reports a failure — so it has to carry the same three things.  Demanded layout-free: the file name, the
+  // message text, and the line as a plain decimal number (a maximal digit run: "1,234" is not line 1234) each occur
+  // somewhere in what().  The process runs under a hostile global C++ locale (digit grouping), see vf::poison_locale.
+  if (o.what.find(__FILE__) == string::npos)
+    C->violation(vkey(cx, opname, "", "what:file"), fmt("what() = \"%s\" does not contain the call site's file name", o.what.c_str()), kase);
+  if (!has_decimal(o.what, o.site_line))
+    C->violation(vkey(cx, opname, "", "what:line"), fmt("what() = \"%s\" does not contain the call site's line %" PRIu64 " as a decimal number", o.what.c_str(), o.site_line), kase);
+  if (o.what.find(o.msg) == string::npos)
+    C->violation(vkey(cx, opname, "", "what:message"), fmt("what() = \"%s\" does not contain the message \"%s\"", o.what.c_str(), o.msg.c_str()), kase);
 }
 
 static uint64_t cell_idx = 0;
@@ -358,6 +273,56 @@ static void relations_suite() {
         judge(cx, "expect_msg", "bool", v != 0, in_context(cx, [&]() { return rel_expect_msg(v != 0, MSGS[m]); }), kase, nullptr, nullptr, MSGS[m]);
       }
       C->cls(fmt("rel:expect_msg:%s:%s", m == 1 ? "empty-text" : m == 2 ? "format-chars" : "text", v ? "holds" : "fails"));
+    }
+}
+
+// --------------------------------------------------------------------------------------------------------
+// call sites on lines >= 1000 (defined at the very end of this file under #line directives)
+static const int N_BIGLINE = 8;
+static Outcome bigline_call(int which, int lhs_operand, int rhs_operand);
+static const char* BIGLINE_MACRO[N_BIGLINE] = {"expect_eq", "expect_lt", "expect_ge", "expect_ne", "expect_msg", "expect", "expect_raises", "expect_raises"};
+
+static void bigline_suite() {
+  for (int which = 0; which < N_BIGLINE; which++)
+    for (int b = 1; b <= 3; b++) {
+      if (!C->mine(cell_idx++)) continue;
+      int a = 2;
+      bool t;
+      switch (which) {
+        case 0: t = a == b; break;
+        case 1: t = a < b; break;
+        case 2: t = a >= b; break;
+        case 3: t = a != b; break;
+        case 4: t = a < b; break;   // expect_msg(lhs < rhs, "text given at a big line")
+        case 5: t = a > b; break;   // expect(lhs > rhs)
+        case 6: t = false; break;   // expect_raises(runtime_error, fn returns): must fail
+        default: t = b == 3; break; // expect_raises(runtime_error, fn throws runtime_error iff rhs == 3)
+      }
+      new_cell();
+      uint64_t site = 0;
+      for (int rep = 0; rep < REPS; rep++) {
+        Context cx = CTX_SCHED[rep % 8];
+        Outcome o = in_context(cx, [&]() { return bigline_call(which, a, b); });
+        site = o.site_line;
+        string kase = fmt("%s at %s:%" PRIu64 " with lhs=%d rhs=%d", BIGLINE_MACRO[which], __FILE__, o.site_line, a, b);
+        if (rep == 0) C->crumb_s(kase);
+        if (which < 6) {
+          judge(cx, BIGLINE_MACRO[which], "bigline", t, o, kase, which == 4 ? nullptr : "lhs_operand", which == 4 ? nullptr : "rhs_operand", which == 4 ? "text given at a big line" : nullptr);
+        } else {
+          C->evaluations++;
+          compare_with_direct(cx, o, kase, false);
+          if (o.threw_other) C->violation(vkey(cx, "expect_raises", "bigline", "wrong-failure-type"), o.other, kase);
+          else if (t && o.threw_ef) C->violation(vkey(cx, "expect_raises", "bigline", "rejected"), o.what, kase);
+          else if (!t && !o.threw_ef) C->violation(vkey(cx, "expect_raises", "bigline", "accepted"), "must fail but succeeded", kase);
+          else if (o.threw_ef) {
+            if (o.file != __FILE__ || o.line != o.site_line)
+              C->violation(vkey(cx, "expect_raises", "", "site"), fmt("failure carries %s:%" PRIu64 ", call site is %s:%" PRIu64, o.file.c_str(), o.line, __FILE__, o.site_line), kase);
+            if (o.what.find(__FILE__) == string::npos || !has_decimal(o.what, o.site_line))
+              C->violation(vkey(cx, "expect_raises", "", "what"), fmt("what() = \"%s\" does not contain the call site's file and decimal line %" PRIu64, o.what.c_str(), o.site_line), kase);
+          }
+        }
+      }
+      C->cls(fmt("bigline:%s:%s:%s", BIGLINE_MACRO[which], site >= 1000000000ULL ? "line>=1e9" : site >= 1000000 ? "line>=1e6" : site >= 1000 ? "line>=1000" : "line<1000", t ? "holds" : "fails"));
     }
 }
 
@@ -596,7 +561,8 @@ static void raises_row(int e) {
         // the failure is the helper's own (fn did not throw an expectation_failed): it names the call site
         if (o.file != __FILE__ || o.line != o.site_line)
           C->violation(vkey(cx, "expect_raises", "", "site"), fmt("failure carries %s:%" PRIu64 ", call site is %s:%" PRIu64, o.file.c_str(), o.line, __FILE__, o.site_line), k2);
-        if (o.what.empty()) C->violation(vkey(cx, "expect_raises", "", "site"), "failure has an empty what()", k2);
+        if (o.what.find(__FILE__) == string::npos || !has_decimal(o.what, o.site_line))
+          C->violation(vkey(cx, "expect_raises", "", "what"), fmt("what() = \"%s\" does not contain the call site's file and decimal line %" PRIu64, o.what.c_str(), o.site_line), k2);
       }
       C->cls(fmt("ctx:%s:expect_raises:%s", CTX_NAME[cx], should_pass ? "must-pass" : "must-fail"));
     }
@@ -633,6 +599,7 @@ int main(int argc, char** argv) {
   string only = c.arg("only");
   if (only.empty() || only == "relations") relations_suite();
   if (only.empty() || only == "shapes") shapes_suite();
+  if (only.empty() || only == "bigline") bigline_suite();
   if (only.empty() || only == "raises") raises_suite();
   c.count("cells_total", c.shard == 0 ? cell_idx : 0);
   c.count("reps_per_cell", c.shard == 0 ? (uint64_t)REPS : 0);
@@ -643,4 +610,26 @@ int main(int argc, char** argv) {
   c.sample("expect_raises(std::logic_error, []{}) must fail (nothing raised) although expectation_failed is-a logic_error");
   c.sample("expect_raises(std::runtime_error, fn throwing user type derived from runtime_error) must pass; fn throwing int must fail with expectation_failed");
   return c.finish();
+}
+
+// --------------------------------------------------------------------------------------------------------
+// Call sites whose line number has four to ten digits.  Must stay at the end of the file: the #line directives below
+// renumber everything after them.  `site_line = __LINE__` is on the same (renumbered) line as the macro.
+static Outcome bigline_call(int which, int lhs_operand, int rhs_operand) {
+  Outcome o;
+  switch (which) {
+#line 999
+    case 5: try { o.site_line = __LINE__; expect(lhs_operand > rhs_operand); } CATCH_INTO(o, true) break;
+    case 0: try { o.site_line = __LINE__; expect_eq(lhs_operand, rhs_operand); } CATCH_INTO(o, true) break;
+    case 1: try { o.site_line = __LINE__; expect_lt(lhs_operand, rhs_operand); } CATCH_INTO(o, true) break;
+#line 12345
+    case 2: try { o.site_line = __LINE__; expect_ge(lhs_operand, rhs_operand); } CATCH_INTO(o, true) break;
+    case 6: try { o.site_line = __LINE__; expect_raises(std::runtime_error, []() {}); } CATCH_INTO(o, false) break;
+#line 1234567
+    case 3: try { o.site_line = __LINE__; expect_ne(lhs_operand, rhs_operand); } CATCH_INTO(o, true) break;
+    case 4: try { o.site_line = __LINE__; expect_msg(lhs_operand < rhs_operand, "text given at a big line"); } CATCH_INTO(o, true) break;
+#line 2147483000
+    case 7: try { o.site_line = __LINE__; expect_raises(std::runtime_error, [&]() { if (rhs_operand == 3) throw std::runtime_error("as expected"); throw std::logic_error("wrong type"); }); } CATCH_INTO(o, false) break;
+  }
+  return o;
 }
